@@ -624,6 +624,7 @@ func init() {
 		Stub:        []string{"net.Listener (SimListener)", "net.Conn (SimConn; counts the octets the server pulls)", "Backend/Session (SimBackend)", "clock (synctest)", "SMTP client (raw driver)", "Server.ErrorLog (recording logger)"},
 		Assumptions: []string{"only unknown verbs and lines not of the shape VERB [SP args] are used as 'unrecognised or malformed'; argument-level syntax errors are counted neither way", "an unrecovered panic kills the worker process and is reported by verifctl as a process-crash violation"},
 		Required:    []string{"endless_line_after_bdat_chunk", "probe_after_chunk_refused_by_backend", "probe_line_in_the_same_segment_as_a_chunk", "limit_crossed_across_segments", "limit_crossed_inside_one_segment", "error_threshold_reached", "line_len_limit+2", "line_len_limit+0", "error_flood_while_reply_writes_fail", "endless_line_with_CR_at_intervals", "mail_rcpt_arguments_from_fragments", "fragment_arguments_accepted_by_parser", "errors_on_both_sides_of_STARTTLS", "backend_refuses_the_session_and_the_client_goes_on"},
+		Instr:       true,
 		QuickRuns:   120000, ThoroughRuns: 3000000,
 	})
 }
